@@ -12,27 +12,11 @@
 // LazyBigint by V-int's contracts.
 #![allow(unused_imports, dead_code, unused_variables, unused_mut)]
 use vstd::prelude::*;
-use vstd::std_specs::ops::*;
 use vstd::std_specs::convert::*;
-use core::ops::Sub;
 
 verus! {
 
-pub struct LazyBigint { pub v: Ghost<int> }
-pub open spec fn lbv(x: int) -> LazyBigint { LazyBigint { v: Ghost(x) } }
-impl LazyBigint {
-    pub open spec fn val(self) -> int { self.v@ }
-    #[verifier::external_body]
-    pub fn from(x: usize) -> (r: LazyBigint) ensures r.val() == x { unimplemented!() }
-    #[verifier::external_body]
-    pub fn is_zero(&self) -> (r: bool) ensures r == (self.val() == 0) { unimplemented!() }
-}
-impl Sub for LazyBigint { type Output = LazyBigint; #[verifier::external_body] fn sub(self, rhs: Self) -> Self { unimplemented!() } }
-impl SubSpecImpl<LazyBigint> for LazyBigint {
-    open spec fn obeys_sub_spec() -> bool { true }
-    open spec fn sub_req(self, rhs: LazyBigint) -> bool { true }
-    open spec fn sub_spec(self, rhs: LazyBigint) -> LazyBigint { lbv(self.val() - rhs.val()) }
-}
+// @@INCLUDE lazyint@@
 /// num_traits::One
 pub struct One;
 impl One { #[verifier::external_body] pub fn one() -> (r: LazyBigint) ensures r.val() == 1 { unimplemented!() } }
@@ -126,6 +110,8 @@ pub open spec fn stops_at<W, R, T>(r: RuntimeResult<TailedEvalResult<W, R, T>>, 
 pub open spec fn vals<W, R, T>(s: XSequence<W, R, T>) -> Seq<Val<W, R, T>> {
     match s { XSequence::Empty => Seq::empty(), XSequence::Array(v) => v@, XSequence::Other(_) => arbitrary() }
 }
+
+// @@INCLUDE stdx@@
 
 // @@EXTRACTED@@
 
